@@ -98,7 +98,14 @@ void DataArray::appendData(DataType dtype, const void *data, const NDSize &count
     //enlarge the DataArray to fit the new data
     dataExtent(extent);
 
-    setData(dtype, data, count, offset);
+    try {
+        setData(dtype, data, count, offset);
+    } catch (...) {
+        //the data was refused (e.g. numbers for a string array): take the enlargement back
+        extent[axis] -= count[axis];
+        dataExtent(extent);
+        throw;
+    }
 
 }
 
